@@ -1,6 +1,6 @@
 // package-dir: pkg/rag
 // property: C20
-// bound: every text that is a sequence of at most 6 (quick) / 7 (thorough) tokens from
+// bound: every text that is a sequence of at most 5 (quick) / 7 (thorough) tokens from
 //        {"a", "bc", "é", " ", "\n", "\n\n", "\nfunc", "\n## "}; the four built-in strategies (recursive,
 //        code, markdown, fixed) through NewSplitterFactory; chunk sizes 1..6, overlaps 0..size
 // rule: each (strategy, size, overlap, text) is split twice by the real SplitText: the two results are equal,
@@ -18,6 +18,7 @@ import (
 	"fmt"
 	"os"
 	"strings"
+	"sync"
 	"testing"
 	"unicode"
 	"unicode/utf8"
@@ -25,7 +26,7 @@ import (
 
 func TestGovcBounded(t *testing.T) {
 	tokens := []string{"a", "bc", "é", " ", "\n", "\n\n", "\nfunc", "\n## "}
-	maxTok := 6
+	maxTok := 5
 	if os.Getenv("VERIF_TIER") == "thorough" {
 		maxTok = 7
 	}
@@ -39,10 +40,16 @@ func TestGovcBounded(t *testing.T) {
 		}
 		return out
 	}
+	var mu sync.Mutex
 	explored, violations, nontrivial, samples := 0, 0, 0, 0
+	perKind := map[string]int{}
 	report := func(kind, strat string, size, ov int, text string, chunks []string) {
+		mu.Lock()
+		defer mu.Unlock()
 		violations++
-		if violations <= 8 {
+		cat := strings.SplitN(kind, " ", 2)[0]
+		perKind[cat]++
+		if perKind[cat] <= 3 {
 			fmt.Printf("GOVC-BOUNDED-VIOLATION %s: strategy=%s size=%d overlap=%d text=%q chunks=%q\n", kind, strat, size, ov, text, chunks)
 		}
 	}
@@ -58,50 +65,66 @@ func TestGovcBounded(t *testing.T) {
 		}
 	}
 	gen("", maxTok)
+	var wg sync.WaitGroup
 	for _, strat := range strategies {
 		for size := 1; size <= 6; size++ {
-			for ov := 0; ov <= size; ov++ {
-				sp := NewSplitterFactory(Config{ChunkingStrategy: strat, ChunkSize: size, ChunkOverlap: ov})
-				for _, text := range texts {
-					explored++
-					chunks := sp.SplitText(text)
-					again := sp.SplitText(text)
-					if len(chunks) > 1 {
-						nontrivial++
-					}
-					if strings.Join(chunks, "\x00") != strings.Join(again, "\x00") || len(chunks) != len(again) {
-						report("not deterministic", strat, size, ov, text, chunks)
-						continue
-					}
-					bad := false
-					for _, c := range chunks {
-						if utf8.RuneCountInString(c) > size+ov {
-							report(fmt.Sprintf("chunk of %d runes exceeds size+overlap", utf8.RuneCountInString(c)), strat, size, ov, text, chunks)
-							bad = true
-							break
+			strat, size := strat, size
+			wg.Add(1)
+			go func() {
+				defer wg.Done()
+				exploredL, nontrivialL := 0, 0
+				for ov := 0; ov <= size; ov++ {
+					sp := NewSplitterFactory(Config{ChunkingStrategy: strat, ChunkSize: size, ChunkOverlap: ov})
+					for _, text := range texts {
+						exploredL++
+						chunks := sp.SplitText(text)
+						again := sp.SplitText(text)
+						if len(chunks) > 1 {
+							nontrivialL++
 						}
-					}
-					if bad {
-						continue
-					}
-					want, have := nonws(text), nonws(strings.Join(chunks, ""))
-					i := 0
-					for _, r := range have {
-						if i < len(want) && want[i] == r {
-							i++
+						if strings.Join(chunks, "\x00") != strings.Join(again, "\x00") || len(chunks) != len(again) {
+							report("not deterministic", strat, size, ov, text, chunks)
+							continue
 						}
-					}
-					if i < len(want) {
-						report("non-whitespace content lost", strat, size, ov, text, chunks)
-						continue
-					}
-					if samples < 3 && len(chunks) > 2 {
-						samples++
-						fmt.Printf("GOVC-BOUNDED-SAMPLE strategy=%s size=%d overlap=%d text=%q chunks=%q\n", strat, size, ov, text, chunks)
+						bad := false
+						for _, c := range chunks {
+							if utf8.RuneCountInString(c) > size+ov {
+								report(fmt.Sprintf("chunk of %d runes exceeds size+overlap", utf8.RuneCountInString(c)), strat, size, ov, text, chunks)
+								bad = true
+								break
+							}
+						}
+						if bad {
+							continue
+						}
+						want, have := nonws(text), nonws(strings.Join(chunks, ""))
+						i := 0
+						for _, r := range have {
+							if i < len(want) && want[i] == r {
+								i++
+							}
+						}
+						if i < len(want) {
+							report("non-whitespace content lost", strat, size, ov, text, chunks)
+							continue
+						}
+						if len(chunks) > 2 && size == 3 && ov == 1 {
+							mu.Lock()
+							if samples < 3 {
+								samples++
+								fmt.Printf("GOVC-BOUNDED-SAMPLE strategy=%s size=%d overlap=%d text=%q chunks=%q\n", strat, size, ov, text, chunks)
+							}
+							mu.Unlock()
+						}
 					}
 				}
-			}
+				mu.Lock()
+				explored += exploredL
+				nontrivial += nontrivialL
+				mu.Unlock()
+			}()
 		}
 	}
+	wg.Wait()
 	fmt.Printf("GOVC-BOUNDED-DONE explored=%d nontrivial=%d violations=%d\n", explored, nontrivial, violations)
 }
